@@ -302,7 +302,7 @@ func TestCheck(t *testing.T) {
 	typed := v6util.TypedCodes()
 	isTyped := func(c int) bool { _, ok := typed[c]; return ok }
 	// DHCPv4: non-canonical generated packets and their mutants
-	n4 := r.Pick(100000, 2500000)
+	n4 := r.Pick(100000, 5000000)
 	var prev []byte
 	for i := 0; i < n4; i++ {
 		if !r.Mine(i) {
@@ -319,7 +319,7 @@ func TestCheck(t *testing.T) {
 		prev = w
 	}
 	// DHCPv6: hand-built non-canonical encodings
-	n6 := r.Pick(60000, 1500000)
+	n6 := r.Pick(60000, 4000000)
 	for i := 0; i < n6; i++ {
 		if !r.Mine(i) {
 			continue
@@ -328,7 +328,7 @@ func TestCheck(t *testing.T) {
 		judge6(r, "noncanon", nonCanon6(rng))
 	}
 	// DHCPv6: generated messages and mutants that stay acceptable
-	n6g := r.Pick(40000, 1500000)
+	n6g := r.Pick(40000, 3000000)
 	var prev6 []byte
 	for i := 0; i < n6g; i++ {
 		if !r.Mine(i) {
